@@ -139,14 +139,14 @@ def rust_module(idx, d, skel):
     w('      ("mut", Holder_::T(mut t)) => { let v: u64 = op.a2.parse().unwrap(); let r = match op.a1.as_str() {')
     for (s, ty) in specs:
         acc = 'state_data_%s_mut' % to_snake(s)
-        arms = ', '.join('Typed_::%s(m) => m.%s().map(|d| d.0 = v).is_some()' % (l, acc) for l in leaves)
+        arms = ', '.join('Typed_::%s(m) => m.%s().map(|d| d.0 += v).is_some()' % (l, acc) for l in leaves)
         w('        "%s" => { let b = match &mut t { %s }; if b { "wrote:1" } else { "wrote:0" } }' % (s, arms))
     w('        _ => "nomethod" }; self.h = Holder_::T(t); r.to_string() }')
     # typed infallible mut
     w('      ("tmut", Holder_::T(mut t)) => { let v: u64 = op.a2.parse().unwrap(); let r = match (&mut t, op.a1.as_str()) {')
     for (s, ty) in specs:
         if s in leaves and (to_snake(s) + '_data_mut') in methods.get(s, []):
-            w('        (Typed_::%s(m), "%s") => match catch_unwind(AssertUnwindSafe(|| { m.%s_data_mut().0 = v; })) { Ok(()) => "ok", Err(_) => "panic:msg" },' % (s, s, to_snake(s)))
+            w('        (Typed_::%s(m), "%s") => match catch_unwind(AssertUnwindSafe(|| { m.%s_data_mut().0 += v; })) { Ok(()) => "ok", Err(_) => "panic:msg" },' % (s, s, to_snake(s)))
     w('        _ => "nomethod" }; self.h = Holder_::T(t); r.to_string() }')
     if dynamic:
         w('      ("dnew", old) => { drop(old); let ctx: u32 = op.a1.parse().unwrap(); self.h = Holder_::D(<%s>::new(Ctx(ctx))); "ok".to_string() }' % DM)
@@ -172,7 +172,7 @@ def rust_module(idx, d, skel):
         w('        _ => "nomethod".to_string() }; self.h = Holder_::D(d); r }')
         w('      ("mut", Holder_::D(mut d)) => { let v: u64 = op.a2.parse().unwrap(); let r = match op.a1.as_str() {')
         for (s, ty) in specs:
-            w('        "%s" => if d.%s_data_mut().map(|x| x.0 = v).is_some() { "wrote:1" } else { "wrote:0" },' % (s, to_snake(s)))
+            w('        "%s" => if d.%s_data_mut().map(|x| x.0 += v).is_some() { "wrote:1" } else { "wrote:0" },' % (s, to_snake(s)))
         w('        _ => "nomethod" }; self.h = Holder_::D(d); r.to_string() }')
         w('      ("into", Holder_::D(d)) => { match op.a1.as_str() {')
         for s in leaves:
